@@ -131,6 +131,7 @@ def layout_cases(rnd: random.Random, n: int, prefix="L", dtypes=LAYOUT_DTYPES, m
             tgt = list(shape)
             src = [1 if rnd.random() < 0.4 else s for s in shape]
             src = src[rnd.randint(0, len(src)):]
+            meta["target_has_zero"] = 0 in tgt
             out.append(mkcase(cid, {"x": x(src)}, f"out = ndx.broadcast_to(x, {tgt})", f"out = lay(lambda a: np.broadcast_to(a, {tgt}), x)", meta, rnd))
         elif f == "broadcast_arrays":
             a, b = ops.broadcast_pair(rnd, 3, 0.1)
